@@ -37,6 +37,7 @@ type Exec struct {
 	ghostWriters map[string]map[string]bool // model field -> contracts that may write it
 	bindings map[string]map[string]*BindDesc // pinned-tree descriptors of contract names (rename tolerance)
 	bindRec  map[string]map[string]*BindDesc // recorded during this run (when asked to)
+	siteMatched map[int]bool // indexes of site clauses of the top contract that matched some program point
 	immCells map[string]Val // address term of a write-once cell (parameter captured by a closure, never reassigned) -> its value
 	Mode string // "contract" | "sweep"
 
@@ -1377,6 +1378,7 @@ func (fr *Frame) returnSiteClauses(x *ssa.Return, rs []Val) {
 		if s.Callee != "return" || (s.Ord != 0 && s.Ord != ord) {
 			continue
 		}
+		ex.markSite(i)
 		ec := fr.evalCtx(fr.curMem, ex.topEntry)
 		names := map[string]Val{}
 		bindResultNames(names, fr.fn.Signature, rs)
@@ -1537,6 +1539,7 @@ func (fr *Frame) loopExitClauses(li *loopInfo, b, succ *ssa.BasicBlock) {
 		if s.Callee != "loopexit" || s.Ord != li.ord || s.Kind != "assert" || !clauseApplies(s.Cl, ex.Prop) {
 			continue
 		}
+		ex.markSite(i)
 		reach := fr.edgeCond(b, succ)
 		ec := fr.evalCtx(fr.memOut[b], ex.topEntry)
 		ec.loop = li
